@@ -302,6 +302,8 @@ func (c *Cluster) PingNode(host string) (bool, error) {
 	if err != nil {
 		return false, err
 	}
+	// the node is not registered in the cluster, so nobody else will close its connection pool
+	defer func() { _ = node.Close() }()
 	ok, err := node.Ping()
 	if err != nil && IsErrorDubious(err) {
 		return false, err
